@@ -91,7 +91,8 @@ func scenarioC16(c *Ctx) {
 	}
 	runs := []run{{4, 25, false, false}, {6, 8, false, true}, {3, 6, true, false}}
 	if !c.Quick() {
-		runs = []run{{16, 50, false, false}, {8, 20, false, true}, {8, 12, true, true}, {2, 200, false, false}}
+		runs = []run{{16, 50, false, false}, {8, 20, false, true}, {8, 12, true, true}, {2, 200, false, false},
+			{16, 80, false, false}, {12, 25, false, true}, {10, 15, true, true}, {3, 300, false, false}, {32, 20, false, false}, {6, 40, true, false}}
 	}
 	for ri, r := range runs {
 		dir := filepath.Join(c.OutDir, fmt.Sprintf("board-%d", ri))
